@@ -203,8 +203,29 @@ pub fn render_hpoa(rng: &mut Rng, f: &Facts) -> Vec<u8> {
         let at = rng.below(rows.len() as u64 + 1) as usize;
         rows.insert(at, "# a comment: OMIM ORPHA HP:0000001".to_string());
     }
-    let mut head = vec!["#description: \"HPO annotations for rare diseases\"".to_string(), "#version: 2024-01-01".to_string()];
-    head.push("database_id\tdisease_name\tqualifier\thpo_id\treference\tevidence\tonset\tfrequency\tsex\tmodifier\taspect\tbiocuration".to_string());
+    // the preamble: the current layout (comment block, then the column header), the legacy layout (the column
+    // header is itself a comment: the first line that is no comment is already a row), no preamble at all, or
+    // the column header before the comment block
+    let comments = vec!["#description: \"HPO annotations for rare diseases\"".to_string(), "#version: 2024-01-01".to_string()];
+    let header = "database_id\tdisease_name\tqualifier\thpo_id\treference\tevidence\tonset\tfrequency\tsex\tmodifier\taspect\tbiocuration".to_string();
+    let mut head: Vec<String> = match rng.below(6) {
+        0 => {
+            let mut h = comments.clone();
+            h.push("#DatabaseID\tDiseaseName\tQualifier\tHPO_ID\tReference\tEvidence\tOnset\tFrequency\tSex\tModifier\tAspect\tBiocuration".to_string());
+            h
+        }
+        1 => vec![],
+        2 => {
+            let mut h = vec![header.clone()];
+            h.extend(comments.clone());
+            h
+        }
+        _ => {
+            let mut h = comments.clone();
+            h.push(header.clone());
+            h
+        }
+    };
     head.extend(rows);
     let mut s = head.join("\n");
     if rng.chance(2, 3) {
